@@ -7,6 +7,18 @@ verus! {
 
 #[derive(Clone, Copy, PartialEq, Eq, Structural)]
 pub struct RustTarget(pub u64);
+// RustTarget is ordered (derived PartialOrd in features.rs); the order itself is not needed by the contract and left
+// uninterpreted, so a comparison that starts to matter makes the obligations fail instead of the front end (env completeness)
+impl vstd::std_specs::cmp::PartialOrdSpecImpl<RustTarget> for RustTarget {
+    open spec fn obeys_partial_cmp_spec() -> bool { false }
+    open spec fn partial_cmp_spec(&self, other: &RustTarget) -> Option<core::cmp::Ordering> { None }
+}
+impl core::cmp::PartialOrd for RustTarget {
+    #[verifier::external_body]
+    fn partial_cmp(&self, other: &RustTarget) -> (r: Option<core::cmp::Ordering>) { unimplemented!() }
+}
+pub const LATEST_STABLE_RUST: RustTarget = RustTarget(82);
+pub const EARLIEST_STABLE_RUST: RustTarget = RustTarget(51);
 #[derive(Clone, Copy, PartialEq, Eq, Structural)]
 pub enum RustEdition { Edition2018, Edition2021, Edition2024 }
 impl RustEdition {
